@@ -47,6 +47,7 @@ type vfGrpCase struct {
 	Script    []vfGrpStep          `json:"script"`
 	Faults    map[string][]vfFault `json:"faults,omitempty"`
 	Delays    map[string][]int     `json:"delays,omitempty"`
+	C12       *vfC12Ctl            `json:"c12,omitempty"`
 }
 
 type vfGrpEvent struct {
@@ -79,6 +80,10 @@ type vfGrpRun struct {
 	hang   string
 	stacks string
 	closed []int32
+	stop   *vfStopper
+	eventsEnd int64
+	closedEarly bool
+	secondClose string
 }
 
 func (run *vfGrpRun) ev(e vfGrpEvent) int64 {
@@ -278,6 +283,9 @@ func (c *vfGrpCase) config(run *vfGrpRun, m int) *Config {
 	conf.Net.Proxy.Enable = true
 	conf.Net.Proxy.Dialer = run.sim.net
 	conf.Net.ReadTimeout = time.Second
+	if c.C12 != nil && c.C12.UnreachKind == "silent" {
+		conf.Net.ReadTimeout = 150 * time.Millisecond
+	}
 	conf.Metadata.Retry.Max = 2
 	conf.Metadata.Retry.Backoff = time.Millisecond
 	conf.Metadata.RefreshFrequency = 40 * time.Millisecond
@@ -347,6 +355,8 @@ func vfExecGrp(c *vfGrpCase) *vfGrpRun {
 	}
 	defer func() { PanicHandler = oldPH; restore(); sim.shutdown() }()
 
+	run.stop = newVfStopper(c.C12, sim)
+	defer run.stop.finish()
 	nM := len(c.Members)
 	run.groups = make([]ConsumerGroup, nM)
 	run.cancel = make([]context.CancelFunc, nM)
@@ -406,10 +416,11 @@ func vfExecGrp(c *vfGrpCase) *vfGrpRun {
 			}
 		}()
 	}
+	closing := false
 	idle := func(cond func() bool, max time.Duration) bool {
 		t0 := time.Now()
 		for !cond() {
-			if time.Since(t0) > max {
+			if time.Since(t0) > max || (!closing && run.stop.stopped()) {
 				return false
 			}
 			time.Sleep(200 * time.Microsecond)
@@ -417,6 +428,14 @@ func vfExecGrp(c *vfGrpCase) *vfGrpRun {
 		return true
 	}
 	for _, st := range c.Script {
+		if run.stop.stopped() && st.Op != "close" {
+			continue // the script is cut short: only the closes remain
+		}
+		if st.Op == "close" && !closing {
+			closing = true
+			run.eventsEnd = vfEventCount(sim)
+			run.closedEarly = run.stop.stopped()
+		}
 		switch st.Op {
 		case "start":
 			startMember(st.M)
@@ -455,17 +474,31 @@ func vfExecGrp(c *vfGrpCase) *vfGrpRun {
 			atomic.StoreInt32(&run.closed[st.M], 1)
 			done := int32(0)
 			go func() { _ = g.Close(); atomic.StoreInt32(&done, 1) }()
-			if !idle(func() bool { return atomic.LoadInt32(&done) == 1 }, vfTq()+3*time.Second) {
+			if !vfWaitQuiescent(sim, func() bool { return atomic.LoadInt32(&done) == 1 }) {
 				run.hang = fmt.Sprintf("Close of member %d did not return", st.M)
 				run.stacks = vfcore.Stacks()
 				return run
 			}
 			sim.ev(vfEvent{Kind: "script-closed", N: st.M}, true)
+			if c.C12 != nil && c.C12.DoubleClose {
+				func() {
+					defer func() {
+						if v := recover(); v != nil {
+							run.secondClose = fmt.Sprintf("second Close of member %d panicked: %v", st.M, v)
+						}
+					}()
+					d2 := int32(0)
+					go func() { _ = g.Close(); atomic.StoreInt32(&d2, 1) }()
+					if !vfWaitQuiescent(sim, func() bool { return atomic.LoadInt32(&d2) == 1 }) {
+						run.secondClose = fmt.Sprintf("second Close of member %d did not return", st.M)
+					}
+				}()
+			}
 		}
 	}
 	fin := int32(0)
 	go func() { wg.Wait(); atomic.StoreInt32(&fin, 1) }()
-	if !idle(func() bool { return atomic.LoadInt32(&fin) == 1 }, vfTq()+3*time.Second) {
+	if !vfWaitQuiescent(sim, func() bool { return atomic.LoadInt32(&fin) == 1 }) {
 		run.hang = "a Consume call or the Errors() channel did not end after every group was closed"
 		run.stacks = vfcore.Stacks()
 	}
